@@ -316,6 +316,7 @@ class CallListerVisitor(ast.NodeVisitor):
         self.namespace = self.namespace.parent
 
     visit_Lambda = visit_FunctionDef
+    visit_AsyncFunctionDef = visit_FunctionDef
 
     def visit_Nonlocal(self, node):
         for name in node.names:
